@@ -61,7 +61,8 @@ MODS = {'c20m_a': [10, 11, 12, 13, 14], 'c20m_b': [20, 21, 22], 'c20pkg': [30, 3
 CALLABLE = [0, 1, 2, 3, 7, 8, 10, 11, 12, 13, 14, 20, 21, 22, 30, 31, 32, 33]
 TWINS = [40, 41]
 RAISER = {'SysExit': 4, 'KbdInt': 5, 'ExcOther': 6}
-UNITS = ['1e-3', '1e-6', '1', '2.5e-07', '1e-9']
+# coarser than the timer's 1e-9 s, equal to it, and finer (every cell then needs the wide-number formats)
+UNITS = ['1e-3', '1e-6', '1', '2.5e-07', '1e-9', '1e-10', '1e-12', '1e-15']
 _counter = [0]
 
 
@@ -180,6 +181,10 @@ def gen_cases(tier, rnd):
         cases.append(dict(pre_profile=pre, invs=[mk_inv(f=[14], m=['c20m_a'], r=True, top=[(13, 2), (14, 3), (10, 1)])]))
         cases.append(dict(pre_profile=pre, invs=[mk_inv(m=['c20m_w'], r=True, D=True, top=[(40, 2), (41, 1), (41, 3), (41, 0), (0, 1)]),
                                                  mk_inv(m=['c20m_w', 'c20m_b'], r=True, top=[(41, 2), (40, 1), (20, 1)])]))
+        # units finer / coarser than the timer: wide-number formats in every column
+        for u in ('1e-12', '1e-15', '1e-10', '1e-3'):
+            cases.append(dict(pre_profile=pre, invs=[mk_inv(f=[0, 10, 7], u=u, r=True, T=True, s=(u == '1e-10'),
+                                                            top=[(0, 3), (10, 40), (7, 2), (0, 1)])]))
         # errors before anything is touched, then a good one
         cases.append(dict(pre_profile=pre, invs=[mk_inv(f=[0], bad_f=True), mk_inv(f=[0], bad_m=True), mk_inv(f=[0], u='abc'),
                                                  mk_inv(f=[0], r=True)]))
@@ -235,6 +240,7 @@ def py_spec(c, o):
             if len(ob['pages']) != 1:
                 why.append(tag + '%d texts paged' % len(ob['pages']))
             else:
+                why += [tag + 'paged text: ' + w for w in columns_vs_statistics(ob, iv)[:3]]
                 if ob['live'] != ob['pages'][0]:
                     why.append(tag + 'paged text differs from what the profiler prints with the same -u/-s')
                 if iv['T'] and ob['T'] != ob['pages'][0]:
@@ -246,6 +252,27 @@ def py_spec(c, o):
         if ob['ns_added'] != iv['binds'] or ob['ns_removed']:
             why.append(tag + 'user namespace: added %r removed %r' % (ob['ns_added'], ob['ns_removed']))
     return why, leak
+
+
+def columns_vs_statistics(ob, iv):
+    """Every column of what was paged (= the -T text, checked separately) against the statistics of the
+    profiler itself (what -r returns and -D pickles), honouring -u: header unit, Hits, Time, Per Hit,
+    % Time, Total time - by exact rational arithmetic within the precision of each format."""
+    from harness.props import c11
+    sj = ob.get('snapshot')
+    if sj is None:
+        return []
+    rep = c11.parse_report(ob['pages'][0], [k for k, _ in sj['timings']])
+    why = list(rep['errors'][:2])
+    want = '%g' % (float(iv['u_ok']) if iv['u_ok'] is not None else float.fromhex(sj['unit']))
+    if rep['unit_str'] != want:
+        why.append('header says Timer unit %r, expected %r' % (rep['unit_str'], want))
+    why += c11.obs_sound_py(sj, rep)
+    shown = {tuple(f['key']) for f in rep['funcs']}
+    for k, rows in sj['timings']:
+        if tuple(k) not in shown and (rows or not iv['s']):
+            why.append('function %r has statistics but no block in the text' % (k,))
+    return why
 
 
 # ----------------------------------------------------------------------------
@@ -316,7 +343,7 @@ def shapes_def():
 def slim(o):
     res = []
     for ob in o['invs']:
-        d = {k: ob[k] for k in ('line', 'kind', 'exc', 'ret', 'b_before', 'b_during', 'b_after', 'builtins_other_same',
+        d = {k: ob.get(k) for k in ('line', 'kind', 'exc', 'ret', 'b_before', 'b_during', 'b_after', 'builtins_other_same',
                                 'ns_added', 'ns_removed', 'stats', 'count_during', 'count_after', 'stable', 'msg', 'D')}
         d['pages'] = [p[:160] for p in ob['pages']]
         d['T_equals_page'] = (ob['T'] == ob['pages'][0]) if ob['T'] is not None and ob['pages'] else None
